@@ -187,7 +187,7 @@ PROPS["C04"] = {
              "Non-trivial = bubble/race: a selected failure with a selected dependant, or a cancel, or >=1000 zero-latency nodes; restore-faults: >=2 blobs; distinct by full case."),
     "assumptions": [
         "goroutines left blocked after Walk has returned are not violations (the process exits)",
-        "the only wall-clock oracles are 90 s (real-scheduler walk) and 30 s (restore) watchdogs on operations that take milliseconds",
+        "the only wall-clock oracles are 30 s (real-scheduler walk) and 30 s (restore) watchdogs on operations that take milliseconds",
         "whole-process behaviour (exit status, no crash dump) under failures and cache faults is observed through the real binary by the history checks",
     ],
     "nt_floor": 0.2,
@@ -204,5 +204,30 @@ PROPS["C04"] = {
         {"name": "restore-faults", "pkg": "c04", "test": "TestRestoreFaults",
          "quick": {"shards": 4, "checks": 60, "cap": 900},
          "thorough": {"shards": 8, "checks": 1500, "cap": 7200}},
+    ],
+}
+
+PROPS["C10"] = {
+    "level": "exploration",
+    "rule": ("contenders are real OS processes running the real locker built with a check-time overlay that turns every os.*/file/flock call, liveness probe and back-off timer of the CURRENT workspace_locker.go into a yield point; the controller picks which process performs its next "
+             "file-system step, may kill -9 any process at any yield point and may cancel a waiting process's context. dfs: bounded exhaustive enumeration of ALL 2-process schedules up to D scheduling decisions with <=1 crash, for each initial lock file in {absent, empty, garbage, dead PID, live unrelated PID} "
+             "(D=8 quick, D=12 thorough; stateless search, each schedule re-executed from scratch). random: 2-3 processes, rapid-drawn schedules of up to 40 decisions, <=2 crashes, <=1 cancel, optional warm-up that lets one process reach the critical section first. "
+             "Oracles: never two live processes between Lock()==nil and Unlock(); Lock never returns an error; while one process holds, a newcomer given 12 steps does not acquire; after the schedule the survivors finish under round-robin stepping and each acquires; a fresh process then acquires within 60 steps. "
+             "Non-trivial = a process observed the lock file between another's create and PID write, or removed it after it changed, or a holder/contender crashed, or a waiter was cancelled; distinct by full case."),
+    "assumptions": [
+        "the controller serialises steps: file-system calls are atomic and never truly simultaneous (the property's own quantifier is over interleavings of individual file-system operations)",
+        "PID reuse by unrelated processes is outside the model; a lock file naming a live unrelated process legitimately blocks (only safety is checked for that initial state)",
+        "yield points come from a fixed table of calls; a call outside the table is simply not a yield point (fewer interleavings, never a fabricated one)",
+    ],
+    "exhaustive_parts": ["dfs"],
+    "exhaustive_scope": "part 'dfs' enumerates every 2-process schedule within its decision bound (<=1 crash); part 'random' (3 processes, longer schedules, cancels) is sampled",
+    "nt_floor": 0.2,
+    "parts": [
+        {"name": "dfs", "pkg": "c10", "test": "TestDFS", "kind": "enum",
+         "quick": {"shards": 12, "env": {"VERIF_DEPTH": 8}, "cap": 1200},
+         "thorough": {"shards": 16, "env": {"VERIF_DEPTH": 12}, "cap": 14400}},
+        {"name": "random", "pkg": "c10", "test": "TestRandom",
+         "quick": {"shards": 4, "checks": 400, "cap": 1200, "shrinktime": "60s"},
+         "thorough": {"shards": 12, "checks": 24000, "cap": 7200, "shrinktime": "120s"}},
     ],
 }
